@@ -95,8 +95,14 @@ const IV: Label = Label::Int(iana::HeaderParameter::Iv as i64);
 const PARTIAL_IV: Label = Label::Int(iana::HeaderParameter::PartialIv as i64);
 const COUNTER_SIG: Label = Label::Int(iana::HeaderParameter::CounterSignature as i64);
 
-impl AsCborValue for Header {
-    fn from_cbor_value(value: Value) -> Result<Self> {
+/// Maximum depth of nested counter-signatures (each of which carries further headers) that
+/// decoding will descend into.
+pub(crate) const MAX_COUNTER_SIGNATURE_DEPTH: usize = 16;
+
+impl Header {
+    /// Convert a [`Value`] into a [`Header`], descending into at most `depth` further levels of
+    /// nested counter-signatures.
+    pub(crate) fn from_cbor_value_depth(value: Value, depth: usize) -> Result<Self> {
         let m = value.try_as_map()?;
         let mut headers = Self::default();
         let mut seen = BTreeSet::new();
@@ -163,6 +169,10 @@ impl AsCborValue for Header {
                     headers.partial_iv = value.try_as_nonempty_bytes()?;
                 }
                 COUNTER_SIG => {
+                    // Each counter-signature holds further headers; bound the nesting.
+                    let depth = depth.checked_sub(1).ok_or(CoseError::DecodeFailed(
+                        crate::cbor::de::Error::RecursionLimitExceeded,
+                    ))?;
                     let sig_or_sigs = value.try_as_array()?;
                     if sig_or_sigs.is_empty() {
                         return Err(CoseError::UnexpectedItem(
@@ -180,12 +190,15 @@ impl AsCborValue for Header {
                     match &sig_or_sigs[0] {
                         Value::Bytes(_) => headers
                             .counter_signatures
-                            .push(CoseSignature::from_cbor_value(Value::Array(sig_or_sigs))?),
+                            .push(CoseSignature::from_cbor_value_depth(
+                                Value::Array(sig_or_sigs),
+                                depth,
+                            )?),
                         Value::Array(_) => {
                             for sig in sig_or_sigs.into_iter() {
                                 headers
                                     .counter_signatures
-                                    .push(CoseSignature::from_cbor_value(sig)?);
+                                    .push(CoseSignature::from_cbor_value_depth(sig, depth)?);
                             }
                         }
                         v => return cbor_type_error(v, "array or bstr value"),
@@ -204,6 +217,12 @@ impl AsCborValue for Header {
             }
         }
         Ok(headers)
+    }
+}
+
+impl AsCborValue for Header {
+    fn from_cbor_value(value: Value) -> Result<Self> {
+        Self::from_cbor_value_depth(value, MAX_COUNTER_SIGNATURE_DEPTH)
     }
 
     fn to_cbor_value(mut self) -> Result<Value> {
@@ -357,12 +376,18 @@ impl ProtectedHeader {
     /// Constructor from a [`Value`] that holds a `bstr` encoded header.
     #[inline]
     pub fn from_cbor_bstr(val: Value) -> Result<Self> {
+        Self::from_cbor_bstr_depth(val, MAX_COUNTER_SIGNATURE_DEPTH)
+    }
+
+    /// Constructor from a [`Value`] that holds a `bstr` encoded header, descending into at most
+    /// `depth` levels of nested counter-signatures.
+    pub(crate) fn from_cbor_bstr_depth(val: Value, depth: usize) -> Result<Self> {
         let data = val.try_as_bytes()?;
         let header = if data.is_empty() {
             // An empty bstr is used as a short cut for an empty header map.
             Header::default()
         } else {
-            Header::from_slice(&data)?
+            Header::from_cbor_value_depth(crate::common::read_to_value(&data)?, depth)?
         };
         Ok(ProtectedHeader {
             original_data: Some(data),
